@@ -29,6 +29,8 @@ structure RtlState where
   pAdd : Pipe := {}            -- addp_<tag>_state / _input_a / _input_b
   pMult : Pipe := {}
   pDiv : Pipe := {}
+  romBus : Nat := 0            -- romread_bus   (ro2rri: address presented to the second ROM port)
+  romReady : Bool := false     -- romread_ready (ro2rri: the address was presented in the previous clock)
 deriving DecidableEq, Repr, Inhabited
 
 def RtlState.getPipe (s : RtlState) (op : String) : Pipe :=
@@ -214,6 +216,49 @@ def destRegs (a : Arch) (prog : List Bits) (op : String) : List Nat :=
 def srcRegs (a : Arch) (prog : List Bits) (op : String) : List Nat :=
   prog.filterMap fun w =>
     if a.ops[getId (w.take a.opBits)]? = some op then some (getId (((w.drop a.opBits).drop a.r).take a.r)) else none
+
+/-! ### `ro2rri`: the second ROM port
+
+The RO2RRI arm takes two clocks: with `romread_ready` low it presents the low `O` bits of the source
+register on `romread_bus` and raises the flag; with the flag high it writes the word the ROM
+(`romread_instance`, the program followed by the data) returns for that address — its low `Rsize`
+bits, or the whole word zero-extended when registers are wider than ROM words — into the
+destination register, lowers the flag and moves on.  Kept as a wrapper round `cycle`, which it is
+equal to on every other opcode. -/
+
+def romArm (a : Arch) (rom : List Bits) (cur : Nat) (s : RtlState) : Option RtlState :=
+  if curOp a cur = some "ro2rri" then
+    let W := a.maxWord
+    let k := part cur W a.opBits a.r
+    let ks := part cur W (a.opBits + a.r) a.r
+    if s.romReady then
+      let v := fetch rom s.romBus
+      some { s with pc := (s.pc + 1) % 2 ^ a.o, romReady := false,
+                    regs := s.regs.set k (if a.rsize ≤ W then v % 2 ^ a.rsize else v) }
+    else some { s with romBus := s.regs.getD ks 0 % 2 ^ a.o, romReady := true }
+  else none
+
+/-- one clock of a processor whose ROM holds `prog` followed by `data` (instruction fetch reads the
+    same memory: a program counter past the program fetches data words) -/
+def cycleRom (a : Arch) (prog data : List Bits) (s : RtlState) (p : PortsIn) : RtlState :=
+  let rom := prog ++ data
+  let cur := fetch rom s.pc
+  match romArm a rom cur s with
+  | some m =>
+    { m with
+      iRecv := (List.range a.n).map (recvBlock a cur s p)
+      oVal := (List.range a.m).map (valBlock a cur s p) }
+  | none => cycle a rom s p
+
+def cycleOptRom (a : Arch) (used : String → List Nat) (prog data : List Bits) (s : RtlState) (p : PortsIn) : RtlState :=
+  let rom := prog ++ data
+  let cur := fetch rom s.pc
+  match romArm a rom cur s with
+  | some m =>
+    { m with
+      iRecv := (List.range a.n).map (recvBlock a cur s p)
+      oVal := (List.range a.m).map (valBlock a cur s p) }
+  | none => cycleOpt a used rom s p
 
 end Rtl
 end BMV
